@@ -442,9 +442,11 @@ void thread_window(Shared &sh, int t, vj::Rng &r, int ncalls)
 {
   auto &mine = sh.objs[static_cast<std::size_t>(t)];
   auto &dep = sh.depth[static_cast<std::size_t>(t)];
+  // shallow locations are favoured (minimum of two draws): calls on prefixes of each other are
+  // the ones that conflict
   auto rnd_path = [&](std::size_t maxd) {
     path p;
-    std::size_t const d = static_cast<std::size_t>(r.below(maxd + 1));
+    std::size_t const d = static_cast<std::size_t>(std::min(r.below(maxd + 1), r.below(maxd + 2)));
     for (std::size_t i = 0; i < d; ++i) p.push_back(sh.names[static_cast<std::size_t>(r.below(sh.names.size()))]);
     return p;
   };
